@@ -283,6 +283,12 @@ class PopBuilder:
         mode = draw(st.sampled_from(cfg.get("id_modes", ["dense", "dense", "sparse", "shuffled", "large"])))
         if mode == "dense":
             ids = list(range(1, n + 1))
+        elif mode == "k1000":
+            pool = list(range(995, 1006)) + list(range(1995, 2004)) + [1, 2, 999, 1000, 1001, 2999, 3000]
+            pool = sorted(set(pool))
+            ids = sorted(draw(st.lists(st.sampled_from(pool), min_size=min(n, len(pool)), max_size=min(n, len(pool)), unique=True)))
+            while len(ids) < n:
+                ids.append(ids[-1] + 1 if ids else 1)
         else:
             hi = 10**4 if mode != "large" else cfg.get("max_id", 2 * 10**9)
             ids = sorted(draw(st.lists(st.integers(1, hi), min_size=n, max_size=n, unique=True)))
